@@ -103,6 +103,11 @@ class C07(core.Prop):
             return {'kind': 'db', 'table': c08.gen_table(rng)}
         fr = cx.gen_frame(rng, maxcols=1)
         col = fr['cols'][0]
+        if col['fam'] == 'float32' and rng.random() < 0.5:
+            # single-precision values that are no short decimals (0.1 is 0.100000001490116...): the statistics are theirs
+            col['cells'] = [c if c is None or rng.random() < 0.4 else
+                            float(np.float32(rng.choice([0.1, 1 / 3, 2.7, -0.7, 1e-3, 123.456, -98.6, 0.2])))
+                            for c in col['cells']]
         return {'col': col, 'rex': rng.random() < 0.3}
 
     # ---------------------------------------------------------------
